@@ -135,6 +135,22 @@ class Frame:
         self.locals[name] = value
 
 
+def mangle(fr, name):
+    """Private name mangling, as CPython's compiler does it: inside a class body `__x` (two leading underscores,
+    not ending in two) denotes `_Class__x`, Class being the innermost enclosing class with leading underscores
+    stripped.  The ASTs pyvc executes are unmangled, so attribute loads / stores / deletes apply it here."""
+    if not (name.startswith("__") and not name.endswith("__")):
+        return name
+    f = fr
+    while f is not None:
+        cq = getattr(getattr(f.fn, "ref", None), "cls_qual", None) if f.fn is not None else None
+        if cq:
+            cls = cq.split(".")[-1].lstrip("_")
+            return f"_{cls}{name}" if cls else name
+        f = f.parent
+    return name
+
+
 LOG_NAMES = {"logger", "LOGGER", "log"}
 PURE_REAL_OK = (str, bytes, int, float, bool, tuple, frozenset, type(None), enum.Enum)
 
@@ -356,9 +372,9 @@ class Interp:
             self.assign_target(st, t, self.binop(st, s.op, cur, rhs), fr)
         elif isinstance(t, ast.Attribute):
             obj = self.eval(st, t.value, fr)
-            cur = self.getattr(st, obj, t.attr, fr)
+            cur = self.getattr(st, obj, mangle(fr, t.attr), fr)
             rhs = self.eval(st, s.value, fr)
-            self.setattr(st, obj, t.attr, self.binop(st, s.op, cur, rhs), fr)
+            self.setattr(st, obj, mangle(fr, t.attr), self.binop(st, s.op, cur, rhs), fr)
         elif isinstance(t, ast.Subscript):
             obj = self.eval(st, t.value, fr)
             idx = self.eval_index(st, t.slice, fr)
@@ -392,7 +408,7 @@ class Interp:
                 self.assign_target(st, e, x, fr)
         elif isinstance(t, ast.Attribute):
             obj = self.eval(st, t.value, fr)
-            self.setattr(st, obj, t.attr, v, fr)
+            self.setattr(st, obj, mangle(fr, t.attr), v, fr)
         elif isinstance(t, ast.Subscript):
             obj = self.eval(st, t.value, fr)
             idx = self.eval_index(st, t.slice, fr)
@@ -518,7 +534,7 @@ class Interp:
             elif isinstance(t, ast.Attribute):
                 obj = self.eval(st, t.value, fr)
                 if isinstance(obj, SObj):
-                    obj.fields.pop(t.attr, None)
+                    obj.fields.pop(mangle(fr, t.attr), None)
                 else:
                     raise Unsupported("del attribute")
             else:
@@ -914,6 +930,38 @@ class Interp:
         return DRef(d)
 
     def e_JoinedStr(self, st, e, fr):
+        h = getattr(getattr(self.task, "c", None), "fstring", None)
+        if h is not None:
+            # contract-file hook: an f-string whose VALUE matters and has symbolic fields (`f"#{r:x}{g:x}{b:x}"` on
+            # modelled ints / modelled strs).  The hook receives the evaluated pieces — str constants and
+            # (value, format-spec, conversion) triples — and returns the modelled str, or NotImplemented to fall
+            # through to the core rule below (opaque message text).  Fields are evaluated once, left to right.
+            pieces = []
+            for v in e.values:
+                if isinstance(v, ast.Constant):
+                    pieces.append(str(v.value))
+                else:
+                    spec = ""
+                    if v.format_spec is not None:
+                        spec = "".join(str(c.value) for c in v.format_spec.values if isinstance(c, ast.Constant))
+                    pieces.append((self.eval(st, v.value, fr), spec, v.conversion))
+            if any(isinstance(p, tuple) and isinstance(p[0], Sym) for p in pieces):
+                r = h(self, st, pieces)
+                if r is not NotImplemented:
+                    return r
+                return ("fstring", tuple(p if isinstance(p, str) else "<sym>" for p in pieces))
+            out = []
+            for p in pieces:
+                if isinstance(p, str):
+                    out.append(p)
+                    continue
+                x, spec, conv = p
+                if isinstance(x, (FnVal, SExc)):
+                    out.append("<sym>")
+                    return ("fstring", tuple(out))
+                x = repr(x) if conv == ord("r") else str(x) if conv == ord("s") else x
+                out.append(format(x, spec))
+            return "".join(out)
         parts = []
         for v in e.values:
             if isinstance(v, ast.Constant):
@@ -1009,6 +1057,12 @@ class Interp:
             r = h(self, st, op, a, b)
             if r is not NotImplemented:
                 return r
+        for x, refl in ((a, False), (b, True)):
+            # a modelled value (ModelObj) may define the operator itself: py_binop(ip, st, op, other, reflected)
+            if isinstance(x, ModelObj) and hasattr(x, "py_binop"):
+                r = x.py_binop(self, st, op, a if refl else b, refl)
+                if r is not NotImplemented:
+                    return r
         if not isinstance(a, Sym) and not isinstance(b, Sym):
             try:
                 return self._concrete_binop(op, a, b)
@@ -1028,8 +1082,13 @@ class Interp:
         if a is None or b is None:
             raise PyRaise(SExc(TypeError, ("unsupported operand type(s) for NoneType",)))
         if isinstance(a, SOpaque) or isinstance(b, SOpaque):
-            # an operator applied to an opaque individual: the protocol of its kind models it (or Unsupported)
-            return self.task.opaque_binop(self, st, op, a, b)
+            # an operator applied to an opaque individual: the protocol of its kind models it, if it has a model
+            # (otherwise the rules below apply, e.g. chr(x) + chr(y), and finally Unsupported)
+            from .api import PROTOCOLS as _P
+
+            o = a if isinstance(a, SOpaque) else b
+            if hasattr(_P.get(o.kind), "binop"):
+                return self.task.opaque_binop(self, st, op, a, b)
         if is_num(a) and is_num(b):
             t = type(op)
             if t is ast.Add:
@@ -1306,6 +1365,8 @@ class Interp:
             if isinstance(hay.length, int):
                 return either(False, *[elem_eq(hay.get(j), e) for j in range(hay.length)])
             return text_has(hay, e)
+        if isinstance(container, str) and isinstance(x, ModelObj) and hasattr(x, "py_in_str"):
+            return x.py_in_str(self, st, container)  # <modelled str> in "constant": the model decides
         if isinstance(container, (LRef, SSeq)) and getattr(self.task.c, "abstract_contains", False):
             # membership in a sequence of symbolic length, left unspecified (the contract does not depend on it)
             return st.fresh_bool("contains")
@@ -1350,7 +1411,7 @@ class Interp:
     # ---- attribute / subscripts
     def e_Attribute(self, st, e, fr):
         obj = self.eval(st, e.value, fr)
-        return self.getattr(st, obj, e.attr, fr)
+        return self.getattr(st, obj, mangle(fr, e.attr), fr)
 
     def getattr(self, st, obj, name, fr=None):
         obj = st.force(obj)
